@@ -342,7 +342,7 @@ def run(ck):
     rest = [c for c in cases if c.ctx != "api" and len(c.vec["muts"]) > 1]
     ck.rng.shuffle(small)
     ck.rng.shuffle(rest)
-    run_bash(small + rest, budget_s=25 if quick else 300)
+    run_bash(small + rest, budget_s=25 if quick else 180)
     devmap = dev_predictions(ck, cases)
     stats = {"bash": 0, "parent_changed": 0, "nontrivial": 0}
     for c in cases:
